@@ -275,7 +275,7 @@ def model_assign(root, segs, val, factory=None, absent_at=None):
     return ('ok', 0)
 
 
-def model_delete(root, segs):
+def model_delete(root, segs, ignore_missing=False):
     """-> ('ok',) | ('missing-final', exc name) | ('missing-parent',) | ('other', reason) | ('partial',)"""
     prefix, (lop, larg) = segs[:-1], segs[-1]
     if has_wild(segs):
@@ -290,6 +290,10 @@ def model_delete(root, segs):
             try:
                 del_seg(d, lop, larg)
                 done += 1
+            except (KeyError, IndexError, AttributeError) as e:
+                if ignore_missing and _clean_absence(d, lop, larg, e):
+                    continue        # every match is treated on its own: an absent one is skipped
+                return ('partial', repr(e)) if done else ('other', repr(e))
             except Exception as e:
                 return ('partial', repr(e)) if done else ('other', repr(e))
         return ('ok',)
